@@ -21,7 +21,7 @@ StdPar == [tp |-> TP, ubd |-> UBD0, drift |-> DRIFT, lvl |-> <<LN, LD>>, rev |->
 ParDiff(p, f) ==
     CASE f = "none"  -> p
       [] f = "lvl"   -> [p EXCEPT !.lvl = IF @ = <<2, 3>> THEN <<1, 2>> ELSE <<2, 3>>]
-      [] f = "ubd"   -> [p EXCEPT !.ubd = @ + 2]
+      [] f = "ubd"   -> [p EXCEPT !.ubd = @ * 2]
       [] f = "drift" -> [p EXCEPT !.drift = @ + 1]
       [] f = "upath" -> [p EXCEPT !.upath = "alt"]
       [] f = "nopath" -> [p EXCEPT !.upath = "none"]
